@@ -14,7 +14,7 @@ def run_seed(name):
     r = subprocess.run(["patch", "-p1", "-s", "-d", scratch, "-i", os.path.join(d, "patch.diff")], stdout=subprocess.PIPE, stderr=subprocess.STDOUT, text=True)
     if r.returncode != 0: return name, {"error": "patch does not apply to the current tree: " + r.stdout[-300:]}
     res = {}
-    for c in ALSO.get(prop, [prop]):
+    for c in meta.get("try") or ALSO.get(prop, [prop]):
         env = dict(os.environ, VERIF_REPO=scratch, VERIF_OUT=out)
         p = subprocess.run([os.path.join(V, "check"), c, "--tier", "quick"], env=env, stdout=subprocess.PIPE, stderr=subprocess.STDOUT, text=True, cwd=V)
         lines = [l for l in p.stdout.splitlines() if l.startswith("VIOLATION") or l.startswith("  C")]
